@@ -30,6 +30,10 @@ type Scanner struct {
 	line         int // line number at linePos
 
 	totalPos int
+
+	// overflow latches once a single token has filled the whole window with
+	// more input still to come.  See checkExtend.
+	overflow bool
 }
 
 func newScannerBuf(file string, r io.Reader, buf []byte) *Scanner {
@@ -185,6 +189,9 @@ func (s *Scanner) scan(r Rune) {
 // Err will always return false while there are still buffered runes that need
 // to be accepted.
 func (s *Scanner) Err() error {
+	if s.overflow {
+		return errTokenTooLong
+	}
 	if s.readErr == nil {
 		return nil
 	}
@@ -382,7 +389,14 @@ func (s *Scanner) Loc() *Location {
 	}
 }
 
+// errTokenTooLong is the error a Scanner reports, from the moment it happens
+// and on every call after it, when a single token outgrows the window.
+var errTokenTooLong = errors.New("token exceeds maximum allowable size")
+
 func (s *Scanner) checkExtend() error {
+	if s.overflow {
+		return errTokenTooLong
+	}
 	rem := len(s.buf) - s.next
 	if rem < utf8.UTFMax {
 		s.extend()
@@ -391,9 +405,38 @@ func (s *Scanner) checkExtend() error {
 		return io.EOF
 	}
 	if s.next == len(s.buf) {
-		// If this is happening then we haven't seen EOF and the extension
-		// routine was unable to do anything to extend the buffer.
-		return errors.New("token exceeds maximum allowable size")
+		// The extension routine was unable to do anything to extend the
+		// buffer: the current token starts at the beginning of the window and
+		// reaches its end.  That is one of two very different things.  Either
+		// the input simply ends here -- every short input scanned as a single
+		// token looks like this, because extend does not fill while start is 0
+		// -- or the token really has outgrown the window.
+		//
+		// The two used to be reported alike, as an error that no caller can
+		// tell from "the next rune is not the one you asked for": Peek turns
+		// it into ok=false, so Accept and every AcceptSeq* loop just stop.
+		// The lexer then emitted the text scanned so far as a complete token,
+		// Ignore moved start, the next extend succeeded, and the REST of the
+		// over-long token was lexed as whatever it looked like.  131073 x 'a'
+		// read as two symbols, and ';' followed by 131072 bytes of comment
+		// read as a comment followed by CODE -- the tail of a comment line
+		// turned into program text, with no error anywhere.  The documented
+		// behaviour (DefaultBufSize) is that such a token FAILS.
+		//
+		// So find out which it is: ask the reader for one more byte.  None
+		// means end of input and changes nothing.  One means the token is too
+		// long; the byte cannot be kept (there is no room, which is the
+		// point), so the failure is latched -- this call and every later one
+		// reports it, Err included, which is what makes the lexer answer
+		// ERROR on its next ReadToken and on every one after, as TokenStream
+		// requires of a stream that cannot continue.
+		if s.readErr == nil {
+			var probe [1]byte
+			if n, _ := io.ReadFull(s.r, probe[:]); n > 0 {
+				s.overflow = true
+			}
+		}
+		return errTokenTooLong
 	}
 	return nil
 }
